@@ -320,6 +320,7 @@ func runCase(spec *ChildSpec) *Result {
 		slow    *slowApplier
 		slowRep *replication.Replica
 		faulty  *Node
+		nk      *nackClient
 	)
 	attach := func() *Result {
 		var err error
@@ -328,6 +329,8 @@ func runCase(spec *ChildSpec) *Result {
 		switch c.Fault.Class {
 		case "stalled_reader":
 			raw, err = dialRaw(prim.Addr, faultyAddr)
+		case "nack_sender":
+			nk, err = startNackClient(prim.Addr, faultyAddr, *c.Fault.Nack)
 		case "no_ack":
 			raw, err = dialRaw(prim.Addr, faultyAddr)
 			if err == nil {
@@ -493,6 +496,10 @@ func runCase(spec *ChildSpec) *Result {
 		}
 		if slow != nil {
 			res.FaultyStats = map[string]any{"entries_applied": slow.n.Load()}
+		}
+		if nk != nil {
+			res.FaultyStats = map[string]any{"nacks": nk.nacks.Load(), "acks": nk.acks.Load(), "rpc_errors": nk.nackErr.Load(),
+				"msgs_read": nk.raw.msgs.Load(), "dropped_msgs": nk.drops.Load(), "last_seq": nk.lastSeq.Load()}
 		}
 		if faulty != nil {
 			res.FaultyStats = replicaStatus(faulty.Mgr)
